@@ -221,7 +221,9 @@ fn run_case(dir: &Path, image: &[u8], allow: bool, dest_exists: bool, interfere:
     }
     sess.install();
     let opts = feoxdb::MigrationOptions::new(&src, &dst).allow_ambiguous_legacy_recovery(allow).verif_hash_bits(4);
+    let _call = crate::util::in_call("migrate()");
     let result = catch_unwind(AssertUnwindSafe(|| feoxdb::migrate(opts)));
+    drop(_call);
     Session::uninstall();
     let result = match result {
         Ok(r) => r,
